@@ -147,7 +147,7 @@ class FunGen:
     def fresh_name(self, ctx):
         """-> (pressure name, real name).  Visibility (shadowing) is always decided on the pressure name, so that a
         program and its twin make the same random choices; in twin mode the real name is unique and looks generated."""
-        if self.pressure or self.r.random() < 0.3:
+        if self.pressure:
             p = self.r.choice(self.names)      # may shadow
         else:
             self.uid += 1
